@@ -190,8 +190,10 @@ CHECKS = {
          'checker of that statement is proved to characterise it and is '
          'evaluated inside Coq on graphs produced by the REAL enumeration '
          '(synthesized Streett implementations and hand-made actions, 4 '
-         'qinit, Moore/Mealy, both back ends). The inherited liveness of '
-         'paths is not proved.'),
+         'qinit, Moore/Mealy, both back ends). Every infinite path of a '
+         'checked graph is a behaviour of the two actions and so inherits '
+         'whatever the implementation guarantees of all its behaviours '
+         '(C12_paths_are_behaviours, C12_paths_inherit).'),
    note=('Trusted: Coq kernel+vm_compute; hand model tied by checking real '
          'outputs with the verified checker (sample); domain restriction: '
          'environment action independent of y\' (inputs the library rejects '
